@@ -53,7 +53,7 @@ func buildExt(s *Spec) px.Type {
 		px.AddTypes(px.CurrentContext(), t)
 		return t
 	}
-	return nil
+	return buildExt3(s)
 }
 
 // RecAliases: the recursive user aliases of the pools.
@@ -467,7 +467,7 @@ func Inhab(t *Spec, alt int) *VSpec {
 		vs := recAliasValues()
 		return vs[alt%len(vs)]
 	}
-	return nil
+	return inhab3(t, alt)
 }
 
 func sub2(t *Spec, i, alt int) *VSpec {
@@ -517,6 +517,16 @@ func SpecContains(s *Spec, kind string) bool {
 		}
 	case "AliasRec":
 		return strings.Contains(s.Strs[0], kind)
+	case "Decl":
+		return strings.Contains(s.S, kind) || strings.Contains(strings.Join(s.Strs, "\n"), kind)
+	case "DeclOnce":
+		return strings.Contains(s.S, kind)
+	case "FloatB":
+		return kind == "Float"
+	case "ValType":
+		found := false
+		Guarded(func() bool { found = Contains(types.VerifDecodeType(s.Build()), kind); return true })
+		return found
 	}
 	for _, e := range s.Sub {
 		if SpecContains(e, kind) {
@@ -548,6 +558,22 @@ func Legend(ss ...*Spec) string {
 			if !seen[s.S] {
 				seen[s.S] = true
 				parts = append(parts, s.S+"<n> = "+strings.Replace(s.Strs[0], "%s", s.S+"<n>", -1))
+			}
+		case "Decl":
+			// (the printed names carry Q<n> for @, n fresh per build)
+			key := strings.Join(s.Strs, "; ")
+			if key != "" && !seen[key] {
+				seen[key] = true
+				parts = append(parts, "declared, @ = Q<n>: "+key)
+			}
+		case "DeclOnce":
+			if !seen["once:"+s.S] && strings.HasPrefix(s.S, "@") {
+				seen["once:"+s.S] = true
+				for _, d := range s.Strs {
+					if strings.HasPrefix(d, "type "+s.S+" ") {
+						parts = append(parts, d)
+					}
+				}
 			}
 		}
 		for _, e := range s.Sub {
